@@ -201,7 +201,8 @@ def gen_machine_program(r: Rng, feat: Dict[str, bool], size: int) -> Dict:
                ("xram", 5 if feat.get("xram") else 0),
                ("crit", 3 if feat.get("imr_writes") and feat.get("isr_writes") and depth == 0 and not in_loop else 0),
                ("bare_reti", 2 if feat.get("bare_reti") and depth == 0 and not in_loop else 0),
-               ("selfmod", 3 if feat.get("selfmod") and depth == 0 and not in_loop else 0)]
+               ("selfmod", 3 if feat.get("selfmod") and depth == 0 and not in_loop else 0),
+               ("ioreg", 4 if feat.get("ioregs") and not in_loop else 0)]
         kind = r.weighted([p for p in pal if p[1] > 0])
         if kind == "nop":
             a.op("NOP")
@@ -297,6 +298,15 @@ def gen_machine_program(r: Rng, feat: Dict[str, bool], size: int) -> Dict:
             at = a.op("RETI", tag="BARE_RETI")
             bare[str(at)] = [cont, f_v, imr_v, S_INIT]
             assert a.pc == cont
+        elif kind == "ioreg":
+            # the E-port input cells and the UART registers of the internal memory: plain cells in both machine models,
+            # written and read back by firmware
+            cell = r.choice([0xF5, 0xF6, 0xF7, 0xF8, 0xF8, 0xF9, 0xFA])
+            if r.chance(2, 3):
+                a.emit([0x32, 0xCC, cell, r.choice([0x00, 0x00, 0xFF, 0x18, 0x5A, r.below(256)])], "IOREG_W")
+            else:
+                a.emit([0x32, 0x80, cell], "IOREG_R")
+                a.lmn("ST_A", SCRATCH + 0x50 + r.below(8))
         elif kind == "selfmod":
             # code that patches itself (a RAM-resident routine adjusting one of its own instructions): the site is executed,
             # its opcode byte is rewritten further down, and the main loop comes back to it on the next lap
